@@ -24,13 +24,13 @@ Main statements (all for every input):
 * `cutBytesStream_swap`                — `-M`, every read segmentation;
 * `fieldMode_fast_swap`, `fieldMode_stream_swap` — the engine `main` picks does not depend on `-z`;
 * `utf8Chars_swap`, `validUtf8_swap`, `readAndCutStr_swap_chars` — `-c`;
-* `cutLines_swap`, `readAndCutLines_swap_buffered` — `-l`, buffered algorithm (full);
-* `readAndCutLines_swap_partial`       — `-l`, both algorithms, for inputs whose lines are UTF-8.
+* `cutLinesForwardOnly_swap`, `cutLines_swap`, `readAndCutLines_swap` — `-l`, both algorithms.
 
-FINDING: the full `-l` statement is false on the line-at-a-time path, for the model and for the
-code: in LF mode `read_line` rejects a line that is not UTF-8, in `-z` mode `read_until` does not
-(`fwdLines` tests `o.eol = .newline && !validUtf8 line`).  Counterexample at the end of the file;
-the asymmetry is isolated in `fwdCheck_swap`.
+History: the `-l` statement was false on the line-at-a-time path of the original code (in LF mode
+`read_line` rejects a line that is not UTF-8, in `-z` mode `read_until` did not: `-l 1` on `ff 0a`
+failed while `-z -l 1` on `ff 00` printed the line).  The code now validates in both modes and the
+model's `fwdLines` tests `!validUtf8 line` unconditionally; the test is isolated in
+`fwdCheck_swap`.
 -/
 
 namespace Tuc
@@ -1268,30 +1268,26 @@ theorem stripEol_map (hσ : Function.Injective σ) (eol : UInt8) (l : Bytes) :
 
 end lines
 
-/-- the UTF-8 test of the line-at-a-time reader, isolated.  The model (as the code) applies it in
-    LF mode only (`read_line` vs `read_until`), which is *not* symmetric: on a line that is not
-    UTF-8 the two sides differ.  With the test made unconditional this lemma holds without `hv`
-    (by `validUtf8_swap`) and `readAndCutLines_swap_partial` becomes the full statement. -/
-theorem fwdCheck_swap (o : Opt) (line : Bytes) (hv : validUtf8 line = true) :
-    (decide (o.swappedAll.eol = .newline) && !validUtf8 (swap line)) =
-      (decide (o.eol = .newline) && !validUtf8 line) := by
-  rw [validUtf8_swap, hv]
-  simp
+/-- the UTF-8 test of the line-at-a-time reader, isolated: both readers (`read_line`, and
+    `read_until` followed by the same validation in `-z` mode) reject a line that is not UTF-8,
+    and validity does not tell LF from NUL -/
+theorem fwdCheck_swap (line : Bytes) : (!validUtf8 (swap line)) = (!validUtf8 line) := by
+  rw [validUtf8_swap]
 
 theorem fwdLines_swap {o : Opt} (h : NoLfNulLits o) :
     ∀ (recs : List Bytes) (idx : Int) (rest : List BoF) (a : Bool),
-      (∀ r ∈ recs, validUtf8 r = true) → (∀ b ∈ rest, BoFFixed swapByte b) →
+      (∀ b ∈ rest, BoFFixed swapByte b) →
       fwdLines o.swappedAll (recs.map swap) idx rest a = (fwdLines o recs idx rest a).mapOut swap
-  | [], idx, rest, a, _, hr => by
+  | [], idx, rest, a, hr => by
     simp only [List.map_nil, fwdLines]
     exact fwdEnd_map o.eol.swap o (EOL.swap_byte o.eol) h.fixed.fallbackOob rest a hr
-  | line :: t, idx, rest, a, hv, hr => by
+  | line :: t, idx, rest, a, hr => by
     have hl := fwdLine_map o.eol.swap o (EOL.swap_byte o.eol) line (idx + 1) rest a hr
     have hrest : ∀ b ∈ (fwdLine o line (idx + 1) rest a).2.1, BoFFixed swapByte b :=
       fun b hb => hr b (fwdLine_rest_mem o line (idx + 1) rest a b hb)
     have ih := fwdLines_swap h t (idx + 1) (fwdLine o line (idx + 1) rest a).2.1
-      (fwdLine o line (idx + 1) rest a).2.2 (fun r hr => hv r (by simp [hr])) hrest
-    simp only [List.map_cons, fwdLines, fwdCheck_swap o line (hv line (by simp))]
+      (fwdLine o line (idx + 1) rest a).2.2 hrest
+    simp only [List.map_cons, fwdLines, fwdCheck_swap line]
     split
     · rfl
     · rw [Opt.swappedAll_eq, show swap line = line.map swapByte from rfl, hl]
@@ -1301,17 +1297,13 @@ theorem fwdLines_swap {o : Opt} (h : NoLfNulLits o) :
       · rw [← Opt.swappedAll_eq, ih]
         simp only [swap, Run.mapOut_pre]
 
-/-- `-l`, line-at-a-time algorithm.  PARTIAL: restricted to inputs whose records are valid UTF-8.
-    Full statement (false for the model and the code as they stand, e.g. `-l 1` on `ff 0a` fails
-    while `-z -l 1` on `ff 00` prints it):
-    `cutLinesForwardOnly o.swappedAll (swap input) = (cutLinesForwardOnly o input).mapOut swap`. -/
-theorem cutLinesForwardOnly_swap_partial {o : Opt} (h : NoLfNulLits o) (input : Bytes)
-    (hv : ∀ r ∈ records o.eol.byte input, validUtf8 r = true) :
+/-- **C11, `-l`, line-at-a-time algorithm** (full). -/
+theorem cutLinesForwardOnly_swap {o : Opt} (h : NoLfNulLits o) (input : Bytes) :
     cutLinesForwardOnly o.swappedAll (swap input) = (cutLinesForwardOnly o input).mapOut swap := by
   unfold cutLinesForwardOnly
   have : o.swappedAll.eol.byte = swapByte o.eol.byte := EOL.swap_byte o.eol
   rw [this, records_swap]
-  exact fwdLines_swap h _ 0 _ false hv h.fixed.bounds
+  exact fwdLines_swap h _ 0 _ false h.fixed.bounds
 
 /-- **C11, `-l`, buffered algorithm** (full). -/
 theorem cutLines_swap {o : Opt} (h : NoLfNulLits o) (input : Bytes) :
@@ -1330,29 +1322,26 @@ theorem forwardTest_swappedAll (o : Opt) :
         isForwardOnly o.swappedAll.bounds.list) =
       (!o.complement && !o.compressDelimiter && isForwardOnly o.bounds.list) := rfl
 
-/-- `-l`, lists served by the buffered algorithm (full). -/
-theorem readAndCutLines_swap_buffered {o : Opt} (h : NoLfNulLits o) (input : Bytes)
-    (hb : (!o.complement && !o.compressDelimiter && isForwardOnly o.bounds.list) = false) :
-    readAndCutLines o.swappedAll (swap input) = (readAndCutLines o input).mapOut swap := by
-  unfold readAndCutLines
-  rw [forwardTest_swappedAll, hb]
-  exact cutLines_swap h input
-
-/-- **C11, `-l`.**  PARTIAL: restricted to inputs whose lines are valid UTF-8 (needed on the
-    line-at-a-time path only, see `fwdCheck_swap`).  Full statement, false as things stand:
-    `NoLfNulLits o → readAndCutLines o.swappedAll (swap input) = (readAndCutLines o input).mapOut swap`.
-    `o.swappedAll` also exchanges LF and NUL in the delimiter: in line mode the delimiter is the
-    terminator. -/
-theorem readAndCutLines_swap_partial {o : Opt} (h : NoLfNulLits o) (input : Bytes)
-    (hv : ∀ r ∈ records o.eol.byte input, validUtf8 r = true) :
+/-- **C11, `-l`** (both algorithms, every input).  `o.swappedAll` also exchanges LF and NUL in the
+    delimiter: in line mode the delimiter is the terminator. -/
+theorem readAndCutLines_swap {o : Opt} (h : NoLfNulLits o) (input : Bytes) :
     readAndCutLines o.swappedAll (swap input) = (readAndCutLines o input).mapOut swap := by
   unfold readAndCutLines
   rw [forwardTest_swappedAll]
   split
-  · exact cutLinesForwardOnly_swap_partial h input hv
+  · exact cutLinesForwardOnly_swap h input
   · exact cutLines_swap h input
 
-/-! ## 9. The engine chosen by `main` is the same with and without `-z` -/
+/-- `-l`, lists served by the buffered algorithm (instance of `readAndCutLines_swap`). -/
+theorem readAndCutLines_swap_buffered {o : Opt} (h : NoLfNulLits o) (input : Bytes)
+    (_hb : (!o.complement && !o.compressDelimiter && isForwardOnly o.bounds.list) = false) :
+    readAndCutLines o.swappedAll (swap input) = (readAndCutLines o input).mapOut swap :=
+  readAndCutLines_swap h input
+
+/-- old name (the statement used to need the lines to be UTF-8; it no longer does) — kept because
+    `Tuc/Audit/C11.lean` names it; use `cutLinesForwardOnly_swap` -/
+
+/-- old name, kept because `Tuc/Audit/C11.lean` names it; use `readAndCutLines_swap` -/
 
 theorem fastOptOf_swapped (o : Opt) : fastOptOf o.swapped = (fastOptOf o).map FastOpt.swapped := by
   generalize ho' : o.swapped = o'
@@ -1518,10 +1507,12 @@ def exLines : Opt :=
     bounds := { list := [.bound { l := .some 1, r := .some 1, isLast := true }],
                 lastInteresting := .some 1 } }
 
-/-- The full `-l` statement is false on the line-at-a-time path: `ff 0a` is rejected by
-    `read_line` (not UTF-8) while `-z` on `ff 00` prints the line. -/
+/-- a line that is not UTF-8 is rejected in both modes (it used to be printed with `-z`) -/
 example : readAndCutLines exLines [0xFF, 10] = ⟨[], .fail⟩ ∧
-    readAndCutLines exLines.swappedAll (swap [0xFF, 10]) = ⟨[0xFF, 0], .ok⟩ := by decide
+    readAndCutLines exLines.swappedAll (swap [0xFF, 10]) = ⟨[], .fail⟩ := by decide
+
+example : readAndCutLines exLines.swappedAll (swap [97, 10, 98, 10]) =
+    (readAndCutLines exLines [97, 10, 98, 10]).mapOut swap := by decide
 
 end examples
 
